@@ -261,8 +261,10 @@ def cut_loop(I, s, st, lab, spec, cond, pre_body, post_body, at_head, auto_inv, 
             ex.pc.append(z3.Not(z(c)))
         if on_exit:
             on_exit(ex)
-        for lem in spec.get("at_exit_assume_proved", ()):
-            pass
+        for lem in spec.get("exit_lemmas", ()):
+            h = eval_clause(I, lem, ex, 0)
+            if h is not True:
+                ex.pc.append(z(h))
         _strip_ghosts(ex)
         outs.append(("fall", ex, None))
     # body path
@@ -291,6 +293,10 @@ def cut_loop(I, s, st, lab, spec, cond, pre_body, post_body, at_head, auto_inv, 
                 outs.append((k, s2, v))
         ends = I.merge_states(ends)
         for e in ends:
+            for lem in spec.get("end_lemmas", ()):
+                h = eval_clause(I, lem, e, 0)
+                if h is not True:
+                    e.pc.append(z(h))
             if post_body:
                 post_body(e)
             if at_head:
